@@ -166,3 +166,159 @@ def replay(path):
         return 1 if bad else 0
     print("replay: nothing executable recorded for kind", kind, "- see the 'broken' field:", rep.get("broken"))
     return 1
+
+
+# ---------------------------------------------------------------------------------------------
+# the generic check: theorems + the correspondence modes that tie the modelled code the
+# property rests on + the independent implementation-side oracle (= failing-input search)
+
+def hrun(res, args, seed=True):
+    a = list(args) + ["-driver", V.DRIVER]
+    if seed:
+        a += ["-seed", str(res.seed)]
+    return V.harness(a)
+
+
+def orun(res, prop, thorough, extra=()):
+    return V.harness(["oracle", "-prop", prop, "-seed", str(res.seed), "-policies", "150" if thorough else "40",
+                      "-docs", "120" if thorough else "50"] + list(extra))
+
+
+def merge_cov(res, s, label):
+    cov = res.coverage
+    cov["evaluations"] += s["evaluations"]
+    cov["distinct_nontrivial"] += s["distinct_nontrivial"]
+    cov.setdefault("input_distribution", {})[label] = dict(s.get("distribution") or {}, evaluations=s["evaluations"],
+                                                           distinct_nontrivial=s["distinct_nontrivial"], **(s.get("extra") or {}))
+    for x in (s.get("samples") or [])[:2]:
+        if len(cov["samples"]) < 8:
+            cov["samples"].append(dict(x, run=label) if isinstance(x, dict) else x)
+
+
+def trim_case(c):
+    out = {}
+    for k, v in c.items():
+        if isinstance(v, str) and len(v) > 4000:
+            v = v[:4000] + "...[truncated]"
+        out[k] = v
+    return out
+
+
+def generic(res, pid, prop_v, corr_runs, oracle_prop, what_for, rule, thorough_runs=None, extra_oracles=(), hyp_keys=("url_hypothesis_failures",)):
+    thorough = res.tier == "thorough"
+    st = V.prepare(res)
+    broken_tooling(res, st, what_for)
+    ok, out = (False, "") if not st["gen"] else V.prove(res, prop_v)
+    res.coverage["rule"] = rule
+    mismatches, oracle_fails = [], []
+    if st["driver"]:
+        for label, args in (thorough_runs if (thorough and thorough_runs) else corr_runs):
+            s = hrun(res, args, seed=("loop" != args[0]))
+            merge_cov(res, s, label)
+            for m in (s.get("mismatches") or []):
+                mismatches.append(dict(m, run=label))
+            for f in (s.get("oracle_failures") or []):
+                oracle_fails.append(dict(f, run=label))
+            for hk in hyp_keys:
+                for hf in ((s.get("extra") or {}).get(hk) or []):
+                    res.assumptions.append("oracle hypothesis violated (%s): %s" % (label, hf))
+                    oracle_fails.append({"kind": "oracle-hypothesis", "clause": hf, "run": label})
+    if oracle_prop:
+        s = orun(res, oracle_prop, thorough)
+        merge_cov(res, s, "oracle-" + oracle_prop)
+        for f in (s.get("oracle_failures") or []):
+            oracle_fails.append(dict(f, run="oracle"))
+    for name, args in extra_oracles:
+        s = V.harness(list(args) + ["-seed", str(res.seed)])
+        merge_cov(res, s, name)
+        for f in (s.get("oracle_failures") or []):
+            oracle_fails.append(dict(f, run=name))
+    # concrete property failures on the implementation
+    seen = set()
+    for f in oracle_fails:
+        key = (f.get("clause") or f.get("kind") or "")[:50]
+        if key in seen:
+            continue
+        seen.add(key)
+        report_case(res, pid, trim_case(f), found=True)
+    # a broken correspondence: search for a property failure on the disagreeing inputs first
+    if mismatches:
+        found_any = bool(oracle_fails)
+        if oracle_prop and not found_any:
+            for m in mismatches[:6]:
+                if "input_hex" in m and "policy" in m:
+                    s = V.harness(["oracle", "-prop", oracle_prop, "-input", m["input_hex"], "-policy", json.dumps(m["policy"])])
+                    for f in (s.get("oracle_failures") or []):
+                        found_any = True
+                        report_case(res, pid, trim_case(dict(f, broken="correspondence " + m.get("kind", ""), model=m.get("model"), go=m.get("go"))), found=True)
+                        break
+                if found_any:
+                    break
+        if not found_any:
+            m = mismatches[0]
+            report_case(res, pid, trim_case(dict(m, broken="correspondence %s: the implementation no longer behaves as the Coq model (%s); "
+                                                 "the property is no longer shown to hold" % (m.get("kind", ""), what_for))), found=False)
+    if st["gen"] and not ok and not res.violations:
+        res.violation({"kind": "proof-obligation-failed", "broken": prop_v + " no longer compiles", "detail": out[-2500:]}, found=False)
+    if thorough and ok:
+        V.coqchk(res, prop_v)
+    return res.finish("proof")
+
+
+SAN = lambda n, d: ("corr-san", ["corr", "-mode", "san", "-policies", str(n), "-docs", str(d)])
+TOK = lambda n, d: ("corr-tok", ["corr", "-mode", "tok", "-policies", str(n), "-docs", str(d)])
+LOOP = ("corr-loop", ["loop"])
+LOOP_T = ("corr-loop", ["loop", "-maxlen", "4", "-corelen", "5"])
+ATTRS = lambda g: ("corr-attrs-" + g, ["attrs", "-gen", g])
+ATTRS_T = lambda g: ("corr-attrs-" + g, ["attrs", "-gen", g, "-full"])
+FN = ("corr-fn", ["fn"])
+
+RULE_LOOP = ("theorems over the Coq model of the token loop (all token lists, all policies); tie: write-chunk sequences of the implementation vs the "
+             "extracted model on (a) every sequence of <=3 tokens over 26 archetypes and <=4 over 12 core archetypes for 6 policies (exhaustive), "
+             "(b) random/hand policies x generated documents (trees, tag soup, byte mutations); oracle: independent check of the property on the "
+             "real output. non-trivial = distinct observed outputs / cases that reach the property's mechanism")
+
+
+@check("C01")
+def c01(res):
+    return generic(res, "C01", "Properties/C01.v", [LOOP, SAN(50, 50), TOK(10, 80)], "C01",
+                   "the token loop and the tokenizer/escape model", RULE_LOOP,
+                   thorough_runs=[LOOP_T, SAN(300, 100), TOK(40, 200)])
+
+
+@check("C05")
+def c05(res):
+    return generic(res, "C05", "Properties/C05.v", [LOOP, SAN(50, 50), FN], "C05",
+                   "the script/style gate of the token loop and normaliseElementName", RULE_LOOP,
+                   thorough_runs=[LOOP_T, SAN(300, 100), FN])
+
+
+@check("C08")
+def c08(res):
+    return generic(res, "C08", "Properties/C08.v", [LOOP, SAN(50, 50)], "C08",
+                   "the content-skipping state of the token loop", RULE_LOOP, thorough_runs=[LOOP_T, SAN(300, 100)])
+
+
+@check("C15")
+def c15(res):
+    cmdbin = os.path.join(V.BUILD, "cmdbin")
+    os.makedirs(cmdbin, exist_ok=True)
+    for c in ("sanitise_ugc", "sanitise_html_email"):
+        V.run(["go", "build", "-o", os.path.join(cmdbin, c), "./cmd/" + c], cwd=V.REPO, env=V.GOENV, check=True)
+    ent = ["entry", "-cmd-ugc", os.path.join(cmdbin, "sanitise_ugc"), "-cmd-email", os.path.join(cmdbin, "sanitise_html_email")]
+    return generic(res, "C15", "Properties/C15.v", [("corr-entry", ent)], None,
+                   "the four entry points and the cmd tools",
+                   "theorems over Entry.v (funnelling of the four entry points, blank short-circuit); tie/oracle: all four entry points x both writer "
+                   "kinds x chunkings (nil, one byte at a time, every split point for inputs <=48 bytes, random with zero-length reads, data+EOF), "
+                   "argument buffer unmodified, both cmd binaries built from the working tree vs their documented policy; non-trivial = distinct outputs",
+                   thorough_runs=[("corr-entry", ent + ["-policies", "60", "-docs", "80"])])
+
+
+@check("C16")
+def c16(res):
+    return generic(res, "C16", "Properties/C16.v", [("corr-rw", ["rw"])], None,
+                   "the write sites of the token loop and the error plumbing of the entry points",
+                   "theorems over Entry.sanitize_rw for every fault schedule; tie/oracle: a fault injected at every index k of each case's write "
+                   "sequence (transient and permanent, io.Writer with and without WriteString) and a failing reader at offsets 0,1,n/2,n-1,n with "
+                   "several error values; compared with the model's accepted chunks / call count / error; non-trivial = distinct (k, length, kind)",
+                   thorough_runs=[("corr-rw", ["rw", "-policies", "40", "-docs", "50"])])
